@@ -61,6 +61,12 @@ func queryPool(dir string) []string {
 		"WITH x AS (SELECT 1) INSERT INTO location VALUES (9999, 'limit 1') RETURNING ID",
 		"WITH x AS (SELECT 1 LIMIT 1) REPLACE INTO location VALUES (1, 'pwned') RETURNING *",
 		"WITH x AS (SELECT 1 LIMIT 1) DELETE FROM milestone WHERE ID IN (SELECT ID FROM milestone LIMIT 3) RETURNING 1",
+		"SELECT '--' AS note LIMIT 1; PRAGMA query_only = OFF; DELETE FROM trace WHERE ID = 1",
+		"SELECT '/*' AS a LIMIT 1; VACUUM INTO '" + evil + "' --*/",
+		"SELECT \"--\" LIMIT 1; PRAGMA query_only = OFF; UPDATE trace SET Kind = 'pwned'",
+		"SELECT '-- ' || What FROM trace LIMIT 1; PRAGMA query_only=0; INSERT INTO location VALUES (77, 'pwned')",
+		"SELECT 1 LIMIT 1 /* ; */ ; PRAGMA query_only = OFF ; DROP TABLE milestone",
+		"SELECT 'it''s --' LIMIT 1; PRAGMA query_only = OFF; DELETE FROM tag; DELETE FROM trace",
 		"SELECT 1; DROP TABLE trace",
 		"SELECT 1 --\n; DELETE FROM trace",
 		"/* c */ SELECT 1",
